@@ -1,4 +1,4 @@
-import Httpcache.Proofs.Store
+import Httpcache.Proofs.Liveness
 /-
 C09 — Fresh matching responses are served from the store.
 
@@ -9,12 +9,14 @@ C09 — Fresh matching responses are served from the store.
    as heuristically cacheable, on both backends, and across closing and reopening a persistent
    backend."
 
-PARTIAL (stated up front): proved for a request without Cache-Control and a stored response with an
-explicit max-age; the store's answers are hypotheses (the index lookup under the request's key
+PARTIAL (stated up front): proved for a request without Cache-Control; `fresh_match_is_served` for an
+explicit max-age, `fresh_is_served` for every kind of lifetime (max-age, Expires, heuristic) of a stored
+response with a usable Date and a status the cache documents as heuristically cacheable, fresh by the RFC
+definitions (`Spec.isFresh`); the store's answers are hypotheses (the index lookup under the request's key
 returns a matching reference and the entry read succeeds) — that they do so for every equivalent
 spelling is the key / normaliser theorems (C03, C04) plus the backend being a map (C14), and is
-exercised end to end by the correspondence runs on all backends with reopen. Heuristic freshness
-and the other request directives are covered by the monitor on the implementation.
+exercised end to end by the correspondence runs on all backends with reopen. The other request
+directives are covered by the monitor on the implementation.
 -/
 namespace Httpcache.C09
 open Httpcache
@@ -53,5 +55,43 @@ theorem fresh_match_is_served (cfg : Cfg) (t0 : Int) (req : Req) (hu : isRequest
   | cons r0 rs =>
     simp only [hvm]
     exact Run.getEntry (some e0) hrun
+
+/-- the same for every kind of freshness lifetime: explicit max-age, Expires − Date, or the heuristic
+    (Date − Last-Modified)/10 for the statuses the cache treats as heuristically cacheable — whenever the
+    stored response is fresh by the RFC 9111 §4.2 definitions of Spec/Defs.lean -/
+theorem fresh_is_served (cfg : Cfg) (t0 : Int) (req : Req) (hu : isRequestMethodUnderstood req = true)
+    (hcc : parseCC req.header = []) (refs sorted : List Ref) (hne : refs ≠ []) (i : Nat)
+    (hvm : varyHeadersMatch cfg.normQ refs req.header = (sorted, some i)) (e0 : Entry) (hT : TimesOK (parsedEntry e0))
+    (hs : (parsedEntry e0).resp.status ≠ 304) (d : Int)
+    (hd : Spec.httpTime cfg.glue.parseTime (parsedEntry e0).resp.header sDate = some d)
+    (hdoc : Spec.heuristicallyCacheable.contains (parsedEntry e0).resp.status = true → isHeuristicStatus (parsedEntry e0).resp.status = true)
+    (hncu : (parseCC (parsedEntry e0).resp.header).noCacheUnqualified = false)
+    (hfresh : Spec.isFresh modelReader cfg.glue.parseTime (Spec.storedOfEntry (parsedEntry e0)) t0 = true) :
+    ∃ r, Run (roundTrip cfg t0 req)
+        [.getRefs (makeURLKey req) (some refs), .getEntry (sorted.getD i default).id (some e0)] r ∧
+      ∃ f, r = .resp (serveFromCache f t0 (parsedEntry e0) (parseCC (parsedEntry e0).resp.header)) := by
+  have hhit : ∀ tr r, Run (handleCacheHit cfg t0 req (parsedEntry e0) (makeURLKey req) sorted i) tr r →
+      tr = [] ∧ ∃ f, r = .resp (serveFromCache f t0 (parsedEntry e0) (parseCC (parsedEntry e0).resp.header)) :=
+    fun tr r h => fresh_hits cfg t0 req (parsedEntry e0) _ _ _ hcc hT hs d hd hdoc hncu hfresh tr r h
+  let env : Env := ⟨fun _ => none, fun _ => none, fun _ _ => false, fun _ _ => false, fun _ _ _ => .err 0⟩
+  have hrun := exec_runs env (handleCacheHit cfg t0 req (parsedEntry e0) (makeURLKey req) sorted i)
+  generalize (exec env (handleCacheHit cfg t0 req (parsedEntry e0) (makeURLKey req) sorted i)).1 = trh at hrun
+  generalize (exec env (handleCacheHit cfg t0 req (parsedEntry e0) (makeURLKey req) sorted i)).2 = rh at hrun
+  obtain ⟨htr, f, hf⟩ := hhit trh rh hrun
+  subst htr
+  refine ⟨rh, ?_, f, hf⟩
+  unfold roundTrip
+  simp only [hu, Bool.not_true, Bool.false_eq_true, ↓reduceIte]
+  refine Run.getRefs (some refs) ?_
+  cases refs with
+  | nil => exact absurd rfl hne
+  | cons r0 rs =>
+    simp only [hvm]
+    exact Run.getEntry (some e0) hrun
+
+/-- the statuses the cache documents as heuristically cacheable are heuristically cacheable by RFC 9110
+    too (so `hdoc` above only excludes 204 and 300, which the code does not list) -/
+theorem documented_heuristic_statuses : ∀ c ∈ Generated.heuristicStatus, c = 304 ∨ c ∈ Spec.heuristicallyCacheable :=
+  heuristic_table_sub
 
 end Httpcache.C09
